@@ -16,8 +16,8 @@ pub fn params(tier: &str) -> (usize, usize) {
 pub fn meta(id: &str, tier: &str) -> CheckMeta {
     let (k, depth) = params(tier);
     let (idc, rule): (&'static str, &'static str) = match id {
-        "C01" => ("C01", "E-hist: BFS over edit histories from every start document (seeds + all strings of <=k lexemes, valid and erroneous) of every zoo language; edit alphabet = every byte offset x {delete 1, delete 2, insert each atom, replace 1 byte}; each transition = Tree::edit + re-parse on the real runtime, compared with a from-scratch parse; state key = (text, internal tree hash via hook H2). Non-trivial = transition on which the new tree shares at least one node identity with the edited old tree (real reuse happened)."),
-        _ => ("C04", "same E-hist exploration as C01; oracle = changed_ranges(old_edited,new) sorted/disjoint/in-document/points consistent and every non-newline byte whose ancestor-kind stack differs is covered. Non-trivial = transition with at least one changed range."),
+        "C01" => ("C01", "E-hist: BFS over edit histories from every start document (seeds + all strings of <=k lexemes, valid and erroneous) of every zoo language; edit alphabet = every byte offset x {delete 1, delete 2, insert each atom, replace 1 byte}; each transition = Tree::edit + re-parse on the real runtime, compared with a from-scratch parse; state key = (text, internal tree hash via hook H2). Non-trivial = transition on which the new tree shares at least one node identity with the edited old tree (real reuse happened). Plus the included-range box: for every document of <= L bytes, EVERY pair of range lists (R1, R2) over all byte positions and u32::MAX (the empty list = whole document), optionally crossed with every edit: parse(d,R1), edit, parse(d',R2,old) compared with parse(d',R2) from scratch."),
+        _ => ("C04", "same E-hist exploration as C01 (including the included-range box: every pair of range lists R1 -> R2 between consecutive parses); oracle = changed_ranges(old_edited,new) sorted/disjoint/in-document/points consistent and every non-newline byte whose ancestor-kind stack differs is covered. Non-trivial = transition with at least one changed range."),
     };
     CheckMeta {
         id: idc, level: "model_checking", rule,
@@ -26,7 +26,8 @@ pub fn meta(id: &str, tier: &str) -> CheckMeta {
             "zoo external scanners serialise all their state (a precondition of the property)".into(),
         ],
         exhaustive: true,
-        bounds: json!({"start_doc_lexemes_k": k, "history_depth": depth, "chunk_sizes": [0,1,2,3,7], "seed_sub_box": "depth+1 on language #(seed mod N), seeds only"}),
+        bounds: json!({"start_doc_lexemes_k": k, "history_depth": depth, "chunk_sizes": [0,1,2,3,7], "seed_sub_box": "depth+1 on language #(seed mod N), seeds only",
+            "included_range_box_(max_doc_bytes,max_ranges_R1,max_ranges_R2,crossed_with_every_edit)": range_passes(tier)}),
     }
 }
 
@@ -37,7 +38,8 @@ pub fn build_info(z: &ZooLang) -> LangInfo {
 
 pub fn insert_atoms(z: &ZooLang) -> Vec<Vec<u8>> {
     let mut atoms: Vec<Vec<u8>> = z.lexemes.iter().map(|s| s.as_bytes().to_vec()).collect();
-    for extra in ["\n".as_bytes(), "é".as_bytes(), b"\xff"] { if !atoms.iter().any(|a| a == extra) { atoms.push(extra.to_vec()); } }
+    // (16 line breaks: the row field of an inline leaf's padding is 4 bits wide)
+    for extra in ["\n".as_bytes(), "é".as_bytes(), b"\xff", b"\n\n\n\n\n\n\n\n\n\n\n\n\n\n\n\n"] { if !atoms.iter().any(|a| a == extra) { atoms.push(extra.to_vec()); } }
     atoms
 }
 
@@ -62,7 +64,24 @@ pub fn worker(ctx: &Ctx, res: &mut ShardResult) {
             res.count(&format!("docs_{}", z.name), 1);
             if ctx.out_of_time() || res.too_many() { return; }
         }
+        // included-range transitions: parse(d, R1) -> [edit] -> parse(d', R2, old tree)
+        let rp = range_passes(&ctx.tier);
+        let maxlen = rp.iter().map(|p| p.0).max().unwrap_or(0);
+        for d in crate::docs::docs(z, 2).iter().filter(|d| !d.is_empty() && d.len() <= maxlen) {
+            idx += 1;
+            if !ctx.mine(idx) { continue; }
+            hist::explore_ranges(ctx, &info, d, &rp, &atoms, oracle_of(&ctx.id), res);
+            res.count(&format!("range_docs_{}", z.name), 1);
+            if ctx.out_of_time() || res.too_many() { return; }
+        }
     }
+}
+
+/// passes of the included-range box: (max document bytes, max ranges in R1, max ranges in R2, crossed with every edit)
+pub fn range_passes(tier: &str) -> Vec<(usize, usize, usize, bool)> {
+    if tier == "mini" { vec![(3, 1, 1, false)] }
+    else if tier == "quick" { vec![(2, 2, 2, false), (3, 1, 2, false), (3, 2, 1, false), (4, 1, 1, false), (1, 1, 1, true)] }
+    else { vec![(4, 2, 2, false), (7, 1, 2, false), (7, 2, 1, false), (9, 1, 1, false), (3, 1, 2, true), (5, 1, 1, true)] }
 }
 
 pub fn replay(id: &str, case: &serde_json::Value) -> Vec<String> {
@@ -70,5 +89,6 @@ pub fn replay(id: &str, case: &serde_json::Value) -> Vec<String> {
     let name = case["lang"].as_str().unwrap_or("");
     let Some(z) = crate::zoo::by_name(name) else { return vec![format!("unknown language {}", name)] };
     let info = build_info(&z);
+    if case.get("part").and_then(|p| p.as_str()) == Some("ranges") { return hist::replay_ranges(&info, case, oracle_of(id)); }
     hist::replay(&info, case, oracle_of(id))
 }
